@@ -25,6 +25,7 @@ FACTS_FOR = {
             "guard_Server_ReadAt", "guard_Server_Sync", "guard_Server_Unmap", "guard_Server_Snapshot",
             "guard_Server_RemoveDiffDisk", "guard_Server_ReplaceDisk", "guard_Server_PrepareRemoveDisk", "guard_Server_Revert",
             "guard_Server_SetReplicaMode", "guard_Server_SetRevisionCounter", "guard_Server_SetCheckpoint", "guard_Server_Reload"],
+    "C19": ["cloneReplicaOrder", "appCloneOrder", "cloneStatusOrder", "cloneStatusLoop", "updateCloneInfo"],
     "C18": ["buildReadWriters", "removeBackendTail", "canAdd", "addReplicaNoLockRechecks", "addReplicaOrder", "removeReplicaTail", "volStatusCounts"],
 }
 
@@ -90,6 +91,12 @@ PROPS = {
                 "harness (rebuild profile): a REAL controller with the REAL remote backend drives three REAL replicas behind their REST and RPC servers on loopback addresses (harness/stack); the harness plays the sync agent only: it copies the source's snapshot files (holes preserved) and head metadata under the newcomer, reloads it without preload and calls UpdateLUNMap, as sync.syncFiles / reloadAndVerify do",
                 "modelled: the file transfer itself (sync agent, ssync child processes, HTTP range protocol of sparse-tools) is replaced by a sparse copy; an interrupted transfer is covered only as far as the controller's gate goes (c07_gate: no promotion without equal chains; the replica stays WO / is dropped)",
                 "modelled: the rebuilt replica's image is computed by the model from the source's state (c07_identical / c07_rebuild justify this); crash points of the rebuilding or source process are not enumerated here (C08 covers the replica directory, C02/C05 the controller's reaction)"]},
+    "C19": {"lean": ["JivaVerif.Properties.C19"], "prefixes": ["c19_"],
+            "runs": [dict(rep("clone", 32, 26, 800, 32, 9), **{"quick": {"n": 32, "len": 26, "timeout": 900}, "thorough": {"n": 800, "len": 32, "timeout": 6000}})],
+            "modelled": FS + [
+                "harness (clone profile): after a generated history on the source replica a replica of a NEW volume is started as a clone of one of its snapshots with the real code end to end: real clone replica behind REST/RPC/sync-agent endpoints, real controller of the new volume (real remote backend) whose Start opens the replica and polls the clone status, app.CloneReplica -> sync.Task.CloneReplica with the real sync agents and ssync as child processes (re-exec of the harness binary, as main.go does); the source volume's controller is a stub answering GET /v1/replicas; the lines of app.startReplica around the call (status inProgress before, error on failure) are repeated by the harness and pinned by the T1 fact cloneStatusOrder",
+                "observed: final clone status, how the new controller lists the replica, that it never lists it RW before the status says completed (sampled every 2 ms), chain, revision counter, and the image read through the new controller; compared with the model (image = view of the snapshot, counter = the one recorded in the snapshot's metadata, which the model now tracks through snapshot / delete / revert / reopen)",
+                "modelled: the polling loop of addReplicaDuringStartNoLock by the status it ends on (T1 fact cloneStatusLoop pins the loop conditions); interruptions of source or clone during the copy are not injected (sync.CloneReplica retries the transfer forever; only the 'snapshot not found' failure is exercised)"]},
     "C10": {"lean": ["JivaVerif.Properties.C10"],
             "runs": [rep("counter", 320, 30, 5000, 45, 3)], "modelled": FS + [
                 "modelled: the counter file is one 4 KiB O_DIRECT block rewritten by a single pwrite under revisionLock; concurrent writers are one atomic step each"]},
